@@ -37,9 +37,32 @@ def gen_chain(rng, n_ops):
     for _ in range(n_ops):
         kind = rng.choice(["with", "with_at", "insert", "update", "update", "transform", "transform", "without"])
         target = rng.choice(keys + [0, 1, -1, 2, 5])
+        # how a key target is handed over: the bare key, an element object equal to the stored
+        # element, or an element object that is only key-equal (other attributes differ): a list is
+        # searched by VALUE, so the latter denotes no element (ValueError, like list.index)
+        tform = rng.choice(["raw", "raw", "obj_eq", "obj_diff"]) if isinstance(target, str) else "raw"
         ops.append({"kind": kind, "key": rng.choice(keys), "v": rng.choice([0, 2, 7]), "target": target,
-                    "field": rng.choice(["v", "w"]), "inplace": rng.random() < 0.4, "same_key": rng.random() < 0.6})
+                    "field": rng.choice(["v", "w"]), "inplace": rng.random() < 0.4, "same_key": rng.random() < 0.6,
+                    "tform": tform})
     return {"start": start, "ops": ops}
+
+
+def aimed():
+    """one-call chains on a known content (built by the chain's first calls): update_/transform_/
+    without_<item> addressed by bare key, equal element and key-equal element, copy and in place"""
+    pre = [{"kind": "with", "key": "a", "v": 2, "target": 0, "field": "v", "inplace": False, "same_key": False, "tform": "raw"},
+           {"kind": "with", "key": "b", "v": 7, "target": 0, "field": "v", "inplace": False, "same_key": False, "tform": "raw"},
+           {"kind": "update", "key": "a", "v": 0, "target": "b", "field": "w", "inplace": False, "same_key": False, "tform": "raw"}]
+    chains = []
+    for kind in ("update", "transform", "without"):
+        for target in ("a", "b", "q"):
+            for tform in ("raw", "obj_eq", "obj_diff"):
+                for field in ("v", "w"):
+                    for inplace in (False, True):
+                        chains.append({"start": ["c"], "ops": pre + [
+                            {"kind": kind, "key": "a", "v": 5, "target": target, "field": field, "inplace": inplace,
+                             "same_key": False, "tform": tform}]})
+    return chains
 
 
 def locate(model, target):
@@ -63,6 +86,7 @@ def run_chain(chain):
         before = as_list(obj.ks)
         kw = {"_inplace": True} if op["inplace"] else {}
         expect_err, new_model = False, list(model)
+        probe_obj = None
         kind, tgt = op["kind"], op["target"]
         try:
             if kind == "with":
@@ -93,6 +117,16 @@ def run_chain(chain):
                     call = lambda: obj.with_k(K(key, v=op["v"]), _index=idx, _insert=True, **kw)
             else:
                 pos = locate(model, tgt)
+                tform = op.get("tform", "raw")
+                if tform != "raw" and isinstance(tgt, str):
+                    # an element object as the address: found by value (list.index)
+                    if tform == "obj_eq":
+                        r = model[pos] if pos is not None else (tgt, 1, "w")
+                    else:
+                        r = (tgt, (model[pos][1] if pos is not None else 0) + 100, "probe")
+                        pos = None
+                    tgt = K(r[0], v=r[1], w=r[2])
+                    probe_obj = (tgt, r)
                 if pos is None:
                     expect_err = True
                 if kind == "update":
@@ -119,6 +153,8 @@ def run_chain(chain):
             return {"step": step, "op": dict(op), "model_before": model,
                     "what": "undocumented exception %s: %s" % (type(e).__name__, str(e)[:200])}
         where = {"step": step, "op": {k: v for k, v in op.items()}, "model_before": model}
+        if probe_obj is not None and (probe_obj[0].key, probe_obj[0].v, probe_obj[0].w) != probe_obj[1]:
+            return dict(where, what="the caller's element object was changed")
         if err is not None:
             if not expect_err:
                 return dict(where, what="unexpected %s: %s" % (type(err).__name__, err))
@@ -165,8 +201,10 @@ def shrink(chain):
 
 def probe(chk, rng, n_chains, n_ops, extra):
     failing, reported = 0, set()
-    for _ in range(n_chains):
-        chain = gen_chain(rng, n_ops)
+    chains = aimed()
+    n_aimed = len(chains)
+    chains += [gen_chain(rng, n_ops) for _ in range(n_chains)]
+    for chain in chains:
         bad = run_chain(chain)
         if bad is None:
             continue
@@ -181,7 +219,7 @@ def probe(chk, rng, n_chains, n_ops, extra):
                       {"kind": "keyedlist-probe", "chain": small, "disagreement": bad,
                        "replay": "bin/check C06 --replay <this file>"},
                       sig={"kind": "keyedlist-probe"})
-    extra["keyedlist_probe"] = {"chains": n_chains, "operations_per_chain": n_ops, "failing": failing}
+    extra["keyedlist_probe"] = {"chains": n_chains, "aimed_chains": n_aimed, "operations_per_chain": n_ops, "failing": failing}
     return failing
 
 
